@@ -16,7 +16,7 @@ def run(ctx):
     fam = ctx.tlc_family("FamC02", constants={"Tier": '"%s"' % ctx.tier})
     ctx.exhaustive["FamC02"] = True
     failures = progflow.judge(ctx, fam, "fam")
-    n = 150 if ctx.tier == "quick" else 2500
+    n = 400 if ctx.tier == "quick" else 3000
     failures += progflow.judge(ctx, progflow.generate(ctx, "funcs", n), "gen")
     failures += corpus.judge(ctx, "C02")
     progflow.report(ctx, failures)
